@@ -183,7 +183,7 @@ class PreprocessorHexagon:
     def split_resolved_shortcode(line: str) -> (str, str):
         """Splits a shortcode line into a tuple of instruction ID and behavior."""
 
-        match = re.search(rf"insn\((\w+), (.+)\)$", line, re.ASCII)
+        match = re.match(rf"insn\((\w+), (.+)\)$", line, re.ASCII)
         if not match:
             raise ValueError(f"Could not split shrtcode line: {line}")
         return match.group(1), match.group(2)
